@@ -75,6 +75,27 @@ def convex_cases(draw):
             'warm': draw(st.booleans()), 'updatePrecond': True, 'default_domain': True}
 
 
+@st.composite
+def rising_model_cases(draw):
+    """Neighbourhood of a configuration in which the dogleg step between the Cauchy point and a negative-curvature CG end
+    point has a POSITIVE model change (the branch `if modelObjective > 0` of trust_region_minimize): indefinite Hessian at
+    the start, preconditioner factorised earlier at a point where the Hessian is positive definite and not refreshed,
+    default settings.  Random search reaches that branch about once in 1e4 cases, so it is targeted by construction
+    (the configuration itself was contributed by an independently seeded change, C01-m3)."""
+    pert = lambda v, rel=0.08: float(v * (1.0 + draw(gen.floats(-rel, rel))))
+    A = [[pert(-1.0), pert(-4.0)], [0.0, pert(2.5)]]
+    A[1][0] = A[0][1]
+    b = [-pert(1.5), -pert(0.5)]                # f = 1/2 x.A.x - b.x + q sum x^4 in vlib.objectives
+    q = pert(2.0)
+    scale = draw(gen.logfloat(-2, 2))
+    dsg = onp.concatenate([onp.array(A).ravel(), [q], onp.zeros(sum(obj.sizes(2)) - 5)]) * scale
+    coef = {'family': 'indefinite', 'n': 2, 'b': (onp.array(b) * scale).tolist(), 'design': dsg.tolist(), 'scale': scale,
+            'lam_min': -4.0 * scale, 'lam_max': 5.0 * scale}
+    other = draw(obj.coefficients(2, family='spdquad', cond_exp=(0.0, 2.0)))
+    return {'n': 2, 'coef': coef, 'x0': [pert(0.25), pert(0.4, 0.15)], 'xs': [pert(-0.25), pert(-3.0, 0.2)], 'entry': 'trm', 'pre': 'self-stale',
+            'settings': None, 'other': other, 'warm': False, 'updatePrecond': False, 'default_domain': True, 'scaled_tol': True}
+
+
 def KNOWN_D9(sub, case, failure):
     """D9: the uphill iterate is the trial point returned by the convergence exit (flag True, last reported iterate)."""
     return bool(failure.clause == 'descent' and failure.data.get('at_converged_exit') is True)
@@ -116,6 +137,8 @@ def check(case):
                 o.p = p_req
             elif case['pre'] in ('exact', 'identity'):
                 o.update_precond(x0)
+            elif case['pre'] == 'self-stale':
+                o.update_precond(np.array(case['xs']))       # factorised at an earlier point, not refreshed
             start = onp.array(case['x0'])
             xr, flag = ES.trust_region_minimize(o, x0, settings, callback=cb)
         else:
@@ -189,6 +212,8 @@ def check(case):
         classes.append('exit-max-iters')
     elif flag:
         classes.append('exit-converged')
+    if 'Found a positive model objective increase' in log:
+        classes.append('positive-model')
     if 'updating precond and trying again' in log:
         classes.append('precond-retry')
     for t in ('boundary', 'neg curve', 'interior'):
@@ -204,8 +229,10 @@ def check(case):
 
 
 SUBCHECKS = [
-    Sub('general', cases, check, quick=250, thorough=10000, shards_quick=12, shards_thorough=12,
+    Sub('general', cases, check, quick=250, thorough=10000, shards_quick=10, shards_thorough=10,
         required=('exit-tr-too-small', 'exit-max-iters', 'exit-converged', 'step-boundary', 'step-negcurve', 'step-interior', 'pre-stale',
                   'pre-identity', 'pre-exact', 'precnorm', 'euclid', 'incremental', 'trm', 'nes'), budget_quick=170, timeout=120),
+    Sub('rising-model', rising_model_cases, check, quick=60, thorough=3000, shards_quick=2, shards_thorough=2, required=('positive-model',),
+        budget_quick=170),
     Sub('convex', convex_cases, check, quick=150, thorough=5000, shards_quick=4, shards_thorough=4, required=('convex-domain',), budget_quick=170),
 ]
